@@ -41,6 +41,11 @@ ZipSchedRec(r) ==
       [] r.oc = "spin" -> ~DelayMustTerminate(r.rng, ZipTransferMean, ZipTransferCap) /\ r.n > 0
       [] OTHER -> FALSE
 ExpiryRec(r) == r.oc = "ok" /\ Expiries(r.hs, r.es)
+CexpRec(r) ==
+    /\ r.oc = "ok" /\ Len(r.ce) = Len(r.hs) /\ Len(r.isc) = Len(r.hs) /\ Len(r.iscv) = Len(r.hs)
+    /\ \A i \in 1..Len(r.hs) : /\ r.ce[i] = ExpiryHeight(r.hs[i])
+                               /\ r.isc[i] = (r.pe[i] = ExpiryHeight(r.hs[i]))
+                               /\ r.iscv[i] = CanonicalExpiryValue(r.pe[i])
 ShuffleRec(r) ==
     CASE r.oc = "ok"   -> IsPerm(r.n, r.out)
       [] r.oc = "spin" -> ~ShuffleMustTerminate(r.rng, r.n)
@@ -95,6 +100,7 @@ Allowed(r) ==
       [] r.a = "heights"   -> HeightsRec(r)
       [] r.a = "zipsched"  -> ZipSchedRec(r)
       [] r.a = "expiry"    -> ExpiryRec(r)
+      [] r.a = "cexp"      -> CexpRec(r)
       [] r.a = "shuffle"   -> ShuffleRec(r)
       [] r.a = "shufflein" -> ShuffleInRec(r)
       [] r.a = "grid"      -> GridRec(r)
